@@ -18,7 +18,7 @@ _real_cwd = None
 
 # ---- import everything of trashcli up front (no imports inside a run) -----
 import trashcli                                   # noqa: E402
-assert trashcli.__file__.startswith('/repo/'), trashcli.__file__
+assert trashcli.__file__.startswith(os.environ.get('VERIF_REPO', '/repo') + '/'), trashcli.__file__
 import psutil                                     # noqa: E402
 import trashcli.put.main as put_main              # noqa: E402
 import trashcli.list.main as list_main            # noqa: E402
@@ -230,6 +230,7 @@ def make_proc(pid, spec, stdin_fn=None):
     p.stdio = Stdio(spec.get('stdin', '').encode('utf-8', 'surrogateescape'), stdin_fn)
     p.kill_at = spec.get('kill_at')
     p.kill_at_mut = spec.get('kill_at_mut')
+    p.intr_at_mut = spec.get('intr_at_mut')
     p.thread = threading.current_thread()
     return p
 
@@ -245,6 +246,8 @@ def _body(p):
         p.exit = 0 if c is None else (c if isinstance(c, int) else 1)
     except SimKilled:
         p.exit = -9
+    except KeyboardInterrupt:
+        p.exit = 130
     except StepLimit:
         p.exit = -99
     except HarnessError:
